@@ -226,3 +226,70 @@ def mk_bufferize():
         return Up(2, 2, capacity=5, vtc=(4, 2), param=None)
     return StreamHarness(nm, f, model, M=4, maxpkt=3, nparam=1)
 reg("BufferizeEndpoints(Converter(up x2))", "quick", mk_bufferize)
+
+
+# --- purely combinational routing elements: Multiplexer, Demultiplexer, Gate, Cast --------------------------------------
+LD = [("data", 4)]
+for n in (2, 3):
+    nm = f"Multiplexer(n={n})"
+    def mk_mux(nm=nm, n=n):
+        nsel = 2 if n == 2 else 4
+        return MultiStreamHarness(nm, lambda: stream.Multiplexer(LD, n), [f"sink{i}" for i in range(n)], ["source"],
+                                  CombRouteOracle(lambda cc, n=n: (cc[0], 0) if cc[0] < n else None, lambda i, cc: 0),
+                                  ctrl=[("sel", range(nsel))], liveness=False, maxpkt=2, idbits=1 if n == 3 else 2)
+    reg(nm, "quick", mk_mux)
+    nm = f"Demultiplexer(n={n})"
+    def mk_demux(nm=nm, n=n):
+        nsel = 2 if n == 2 else 4
+        return MultiStreamHarness(nm, lambda: stream.Demultiplexer(LD, n), ["sink"], [f"source{i}" for i in range(n)],
+                                  CombRouteOracle(lambda cc, n=n: (0, cc[0]) if cc[0] < n else None, lambda i, cc: 0),
+                                  ctrl=[("sel", range(nsel))], liveness=False, maxpkt=2)
+    reg(nm, "quick", mk_demux)
+for srwd in (False, True):
+    nm = f"Gate(sink_ready_when_disabled={srwd})"
+    def mk_gate(nm=nm, srwd=srwd):
+        return MultiStreamHarness(nm, lambda: stream.Gate(LD, srwd), ["sink"], ["source"],
+                                  CombRouteOracle(lambda cc: (0, 0) if cc[0] else None, lambda i, cc, srwd=srwd: int(srwd)),
+                                  ctrl=[("enable", (0, 1))], liveness=False, maxpkt=2)
+    reg(nm, "quick", mk_gate)
+
+
+def _bitrev_fields(raw, widths_from, widths_to, rev_from, rev_to):
+    """reference for Cast: Cat(*sigs_to) = Cat(*sigs_from) with optional reversal of the field lists"""
+    offs, o = [], 0
+    for w in widths_from:
+        offs.append((o, w))
+        o += w
+    vals = [(raw >> a) & ((1 << w) - 1) for a, w in offs]
+    if rev_from:
+        vals, wf = vals[::-1], widths_from[::-1]
+    else:
+        wf = widths_from
+    bits, o = 0, 0
+    for val, w in zip(vals, wf):
+        bits |= val << o
+        o += w
+    wt = widths_to[::-1] if rev_to else widths_to
+    outv, o = [], 0
+    for w in wt:
+        outv.append((bits >> o) & ((1 << w) - 1))
+        o += w
+    if rev_to:
+        outv = outv[::-1]
+    out, o = 0, 0
+    for val, w in zip(outv, widths_to):
+        out |= val << o
+        o += w
+    return out
+
+
+for rf in (False, True):
+    for rt in (False, True):
+        nm = f"Cast([a:1,b:3]->[c:2,d:2],reverse_from={rf},reverse_to={rt})"
+        def mk_cast(nm=nm, rf=rf, rt=rt):
+            return StreamHarness(nm, lambda: stream.Cast([("a", 1), ("b", 3)], [("c", 2), ("d", 2)], rf, rt),
+                                 lambda H: Identity(4, 1, mapraw=lambda raw: _bitrev_fields(raw, [1, 3], [2, 2], rf, rt)),
+                                 mode="free", alphabet=list(range(16)), M=16, maxpkt=2, nparam=1)
+        reg(nm, "quick", mk_cast)
+reg("Cast(4->[a:1,b:3])", "quick", lambda: StreamHarness("Cast(4->[a:1,b:3])", lambda: stream.Cast(4, [("a", 1), ("b", 3)]),
+                                                       lambda H: Identity(4, 1), mode="free", alphabet=list(range(16)), M=16, maxpkt=2, nparam=1))
